@@ -47,3 +47,25 @@ def all_seeds():
             seen.add(s)
             out.append(s)
     return out
+
+
+def repo_tests_with_expectations():
+    """(name, program, expected trimmed stdout) for the shared test bodies of /repo/tests that expect success
+    with a fixed output (the Windows half of the suite runs the same bodies through the Batch converter)"""
+    import ast as pyast
+    out = []
+    for f in sorted(glob.glob(os.path.join(common.REPO, "tests", "*.go"))):
+        if f.endswith("_test.go"):
+            continue
+        text = open(f, encoding="utf-8", errors="replace").read()
+        for m in re.finditer(r"func (test\w+)\(t \*testing\.T, transpilerFunc transpilerFunc\) \{\s*transpilerFunc\(t, `([^`]*)`, func\(output string, err error\) \{(.*?)\n\t\}\)\n\}", text, re.S):
+            name, src, body = m.group(1), m.group(2), m.group(3)
+            e = re.search(r'require\.Equal\(t, ("(?:[^"\\]|\\.)*"), output\)', body)
+            if not e or "require.Nil(t, err)" not in body and "require.Error(t, err)" not in body:
+                continue
+            try:
+                expected = pyast.literal_eval(e.group(1))
+            except Exception:
+                continue
+            out.append((name, textwrap.dedent(src).strip("\n") + "\n", expected, "require.Error" in body))
+    return out
